@@ -15,8 +15,14 @@ func init() {
 		Jobs: func(c *Ctx) ([]run.Job, error) {
 			var jobs []run.Job
 			add := func(arch string, L, M, yield, fails int) {
-				jobs = append(jobs, run.Job{ID: fmt.Sprintf("parse/%s/L%d/M%d/yield%d/scanfails%d", arch, L, M, yield, fails), Pkg: pkg, Harness: "H_Parse",
-					Params: map[string]interface{}{"arch": arch, "L": L, "M": M, "yield": yield, "scanfails": fails}, Weight: (yield + M) * 10, CoverModels: yield <= 1})
+				classes := []int{0}
+				if yield+M >= 3 {
+					classes = []int{1, 2, 3, 4} // three delivered lines: split on the class of the first line
+				}
+				for _, cl := range classes {
+					jobs = append(jobs, run.Job{ID: fmt.Sprintf("parse/%s/L%d/M%d/yield%d/scanfails%d/class%d", arch, L, M, yield, fails, cl), Pkg: pkg, Harness: "H_Parse",
+						Params: map[string]interface{}{"arch": arch, "L": L, "M": M, "yield": yield, "scanfails": fails, "class1": cl}, Weight: (yield + M) * 10, CoverModels: yield <= 1, MaxPaths: 30000})
+				}
 			}
 			L := 2
 			if c.Tier == "thorough" {
